@@ -352,3 +352,20 @@ func MutexHeld(mu interface {
 	}
 	return true
 }
+
+// Obligation returns the id of the obligation a native replay is about (from the counterexample file).
+func Obligation() string {
+	p := os.Getenv("VERIF_CEX")
+	if p == "" {
+		return ""
+	}
+	b, err := os.ReadFile(p)
+	if err != nil {
+		return ""
+	}
+	var top struct {
+		Obligation string `json:"obligation"`
+	}
+	json.Unmarshal(b, &top)
+	return top.Obligation
+}
